@@ -258,6 +258,7 @@ RULES = [
     ("C12.skeleton", rule_skeleton),
     ("C12.enq", rule_enq),
     ("C12.deq", rule_deq),
+    ("C12.sharedread", lambda c, r: __import__("sa.rules.c10", fromlist=["x"]).rule_sharedread(c, r, "C12.sharedread", ("lfq",))),
     ("C12.exported", lambda c, r: __import__("sa.rules.c10", fromlist=["x"]).rule_wrappers(c, r, "C12.exported", ("lfq",))),
     ("C12.init", lambda c, r: __import__("sa.rules.c10", fromlist=["x"]).rule_inits(c, r, "C12.init", ("cds_lfq_node_init_rcu",))),
 ]
